@@ -861,8 +861,11 @@ inline std::string executeTransition(const History& prefix, const Op& last, cons
     std::string ret = realApply(R, last);
     R.A[0].seam = nullptr;
     R.A[1].seam = nullptr;
-    if (opt.checkModel && !E.ret.empty() && ret != E.ret)
-      SR.viol("return-value", "returned " + ret + ", the contract says " + E.ret);
+    bool diverged = false;  // real and model disagree: the state is not explored further, whatever the property
+    if (!E.ret.empty() && ret != E.ret) {
+      diverged = true;
+      if (opt.checkModel) SR.viol("return-value", "returned " + ret + ", the contract says " + E.ret);
+    }
     if (E.resync) {
       W.M[0] = extract(R.D[0]->as<JsonVariantConst>());
       W.M[1] = extract(R.D[1]->as<JsonVariantConst>());
@@ -890,6 +893,7 @@ inline std::string executeTransition(const History& prefix, const Op& last, cons
     if (opt.checkModel && !E.mutates && !E.resync && postConcrete != preConcrete && last.code != SHRINK && last.code != HANDLE_TAKE)
       SR.viol("noop-mutates", "an operation that the contract defines as a no-op changed the concrete state");
     std::string want = predictAll(W);
+    if (seen != want) diverged = true;
     if (opt.checkModel && seen != want) {
       // locate the first difference for the report
       size_t i = 0;
@@ -906,7 +910,7 @@ inline std::string executeTransition(const History& prefix, const Op& last, cons
       if (!ledgerKind && opt.checkLedger && cerr.find("free list") != std::string::npos) SR.viol("inspector-memory", cerr);
     }
     // a state reached by a violating transition is not explored further (its model is no longer trustworthy)
-    if (wantSuccessor && SR.out.find("V\t") == std::string::npos) {
+    if (wantSuccessor && !diverged && SR.out.find("V\t") == std::string::npos) {
       std::string key = worldModelKey(W) + postConcrete;
       SR.out += "S\t" + key + "\n";
       if (postConcrete != preConcrete || E.mutates) SR.out += "N\n";
